@@ -313,6 +313,12 @@ def run(prog, tier, extra=None):
                 res.add(Finding(R5, "C17.index-paired|%s|key-only" % b.path, "%s removes an address_to_peers entry by key without removing the peer record it belongs to: a rejected or "
                                 "failed handshake on one connection can delete the entry of another connection authenticated under the same key" % name, b.loc(bb)))
 
+    # "incompatible versions never yield a connected peer": the version checks read what the handshake decoder produced; a decoder
+    # that invents or skips a field (core_version filled from another field, a trailing field left at its default) defeats them
+    from ._include import include
+    include(res, prog, tier, extra, "c09", ["C09.no-field-skipped", "C09.read-before-decode", "C09.layout"],
+            "the handshake checks judge the decoded HandshakeChallenge / HandshakeResponse: every field is read from the bytes the peer sent, at the offset it was written",
+            keep=lambda f: "Handshake" in f.key)
     res.explanation = (
         "Decides the shape-level part of authentication: who may mark a peer connected / record its key / index it by key, that in the one handler that does, both "
         "writes are dominated by the true edge of verify(self.challenge_for_peer, response.signature, response.public_key) and the key recorded is the verified one, "
